@@ -1614,7 +1614,7 @@ func runConc(r *common.Rand, delayUS int, rp map[string]string) {
 // are chosen so that what each does is decided by the state before the batch (as in the model's
 // call_prog): pushes of blobs not stored yet, tags of blobs already stored, untags of existing
 // references, SaveIndex.
-func runConcModel(r *common.Rand, rp map[string]string) {
+func runConcModel(r *common.Rand, rp map[string]string, killUS int) {
 	sc := &ck.Script{Blobs: universe(r, false)}
 	if rp != nil {
 		var err error
@@ -1676,15 +1676,37 @@ func runConcModel(r *common.Rand, rp map[string]string) {
 	scriptPath := filepath.Join(dir, "script.json")
 	os.WriteFile(scriptPath, []byte(sc.JSON()), 0o644)
 	cmd := exec.Command(exe, "conc", root, scriptPath)
-	var outb strings.Builder
-	cmd.Stdout = &outb
+	pipe, err := cmd.StdoutPipe()
+	if err != nil {
+		panic(err)
+	}
 	if err := cmd.Start(); err != nil {
 		panic(err)
 	}
-	waited := make(chan error, 1)
-	go func() { waited <- cmd.Wait() }()
+	var outb strings.Builder // complete once eof is closed
+	ready := make(chan bool, 1)
+	eof := make(chan struct{})
+	go func() {
+		rd := bufio.NewReader(pipe)
+		sent := false
+		for {
+			l, err := rd.ReadString('\n')
+			outb.WriteString(l)
+			if !sent && strings.HasPrefix(l, "READY") {
+				sent = true
+				ready <- true
+			}
+			if err != nil {
+				if !sent {
+					ready <- false
+				}
+				close(eof)
+				return
+			}
+		}
+	}()
 	id := run.NewID()
-	rep := map[string]any{"script": sc, "conc_model": 1}
+	rep := map[string]any{"script": sc, "conc_model": 1, "conc_kill_us": killUS}
 	var hs, cs, bl []string
 	for _, o := range sc.History {
 		hs = append(hs, o.String())
@@ -1703,17 +1725,43 @@ func runConcModel(r *common.Rand, rp map[string]string) {
 		bl = append(bl, fmt.Sprintf("%d:1:%d", b.ID, m))
 	}
 	text := "blobs=" + strings.Join(bl, ",") + ";hist=" + strings.Join(hs, ",") + ";conc=" + strings.Join(cs, "|") + ";final=saveindex"
-	select {
-	case <-waited:
-	case <-time.After(30 * time.Second):
+	prefix := "" // "any:" = killed: the directory of ANY configuration of any schedule
+	if killUS >= 0 {
+		// killed at an arbitrary moment: the directory left must be the directory of some
+		// configuration the model reaches under some schedule (a prefix of it)
+		ok := false
+		select {
+		case ok = <-ready:
+		case <-time.After(60 * time.Second):
+		}
+		if ok {
+			time.Sleep(time.Duration(killUS) * time.Microsecond)
+		}
 		cmd.Process.Kill()
-		<-waited
-		run.OracleFail(id, "conc-wedged", "the concurrent calls did not return within 30 s", rep)
-		run.Case(id, "Q "+text+" wedged", "QREACH yes")
-		return
-	}
-	if !strings.Contains(outb.String(), "SYNC ok") {
-		run.OracleFail(id, "conc-quiescent-unsynced", "all concurrent calls have returned and the child reports: "+strings.TrimSpace(outb.String()), rep)
+		<-eof
+		cmd.Wait()
+		if !ok {
+			run.Count("conc-child-not-ready")
+			return
+		}
+		prefix = "any:"
+		run.Count("conc-model-compared-killed")
+	} else {
+		select {
+		case <-eof:
+			cmd.Wait()
+		case <-time.After(30 * time.Second):
+			cmd.Process.Kill()
+			<-eof
+			cmd.Wait()
+			run.OracleFail(id, "conc-wedged", "the concurrent calls did not return within 30 s", rep)
+			run.Case(id, "Q "+text+" wedged", "QREACH yes")
+			return
+		}
+		if !strings.Contains(outb.String(), "SYNC ok") {
+			run.OracleFail(id, "conc-quiescent-unsynced", "all concurrent calls have returned and the child reports: "+strings.TrimSpace(outb.String()), rep)
+		}
+		run.Count("conc-model-compared")
 	}
 	// the observation in the model's vocabulary
 	byHex := map[string]int{}
@@ -1746,8 +1794,7 @@ func runConcModel(r *common.Rand, rp map[string]string) {
 			bs = append(bs, strconv.Itoa(b.ID))
 		}
 	}
-	run.Count("conc-model-compared")
-	run.Case(id, "Q "+text+" I="+obsIdx+";B="+strings.Join(bs, ","), "QREACH yes")
+	run.Case(id, "Q "+text+" "+prefix+"I="+obsIdx+";B="+strings.Join(bs, ","), "QREACH yes")
 }
 
 // ---------- main ----------
@@ -1830,8 +1877,15 @@ func replay(path string) {
 			panic(err)
 		}
 		if len(sc.Conc) > 0 && c["conc_model"] != "" {
+			d := -1
+			if v, ok := c["conc_kill_us"]; ok {
+				d, _ = strconv.Atoi(v)
+			}
 			for rep := 0; rep < 20; rep++ {
-				runConcModel(run.Rand, c)
+				runConcModel(run.Rand, c, d)
+				if d >= 0 {
+					runConcModel(run.Rand, c, run.Rand.Intn(2*d+200))
+				}
 			}
 			continue
 		}
@@ -1909,7 +1963,10 @@ func main() {
 			runConc(r, -1, nil) // run to completion: resolver and index.json agree
 		}
 		if i%2 == 0 {
-			runConcModel(r, nil) // run to completion and compared with the model's reachable finals
+			runConcModel(r, nil, -1) // run to completion and compared with the model's reachable finals
+		}
+		if i%2 == 1 {
+			runConcModel(r, nil, r.Intn(2500)) // killed and compared with the model's reachable configurations
 		}
 	}
 	// AutoSaveIndex off: only SaveIndex writes index.json
@@ -1971,6 +2028,7 @@ func checkFloors() {
 	need("conc-kills", run.Scale(30, 300))
 	need("conc-quiescent", run.Scale(8, 80))
 	need("conc-model-compared", run.Scale(15, 150))
+	need("conc-model-compared-killed", run.Scale(15, 150))
 	need("autosave-off-scripts", run.Scale(8, 60))
 	need("final:reopen", run.Scale(3, 20))
 	need("composite-finals-with-cascade", run.Scale(2, 30))
